@@ -33,4 +33,8 @@ def queries():
         qs.append(Q("mirror-multiple-%d" % size, "C19_mirror.c", SRCS,
                     defs={"REPORT": 2, "SIZE": size, "VERIF_GARRAY_CAP": 5, "VERIF_QCAP": 3}, unwind=6, unwindset=UW, instr=R,
                     tier="quick" if size in (8, 16, 128) else "thorough"))
+    # a mirror that is deferred (node budget used up) must still go out: held messages are released as soon as answers or
+    # the 2 s expiry free the budget - the receiver-side step of C03 on an arbitrary node state
+    from check import borrow
+    qs += borrow("C03", lambda q: q.name.startswith("step1-"))
     return qs
